@@ -315,11 +315,16 @@ Fixpoint request_poll (fuel : nat) (answers : A -> bool) (s : astate) (c : nat) 
       end
   end.
 
-(* the executor polls the future of request c once (its wake-up, if any, is consumed) *)
-Definition request_step (fuel : nat) (answers : A -> bool) (s : astate) (c : nat) : outcome (astate * poll (option A)) :=
-  request_poll fuel answers (clear_woken c s) c.
+(* the executor polls the future of request c once (its wake-up, if any, is consumed).
+   bundles.rs format_values_from_inner! / format_messages_from_inner! start with
+   `if $keys.is_empty() { return Vec::new(); }`: a batch with no keys (`no_keys`) completes at once; its
+   handle exists (`stream.stream()`) but is never polled, holds no waker, and nothing changes. *)
+Definition request_step (fuel : nat) (no_keys : bool) (answers : A -> bool) (s : astate) (c : nat)
+  : outcome (astate * poll (option A)) :=
+  if no_keys then Done (s, Ready None)
+  else request_poll fuel answers (clear_woken c s) c.
 
-(* bundles.rs format_value_from_iter / format_values_from_iter / format_messages_from_iter *)
+(* bundles.rs format_value_from_iter / format_values_from_iter / format_messages_from_iter: the loop *)
 Fixpoint request_sync (fuel : nat) (answers : A -> bool) (c : cache) (i : nat) : outcome (cache * option A) :=
   match fuel with
   | O => OutOfFuel
@@ -330,6 +335,12 @@ Fixpoint request_sync (fuel : nat) (answers : A -> bool) (c : cache) (i : nat) :
       | Some x => if answers x then Done (c1, Some x) else request_sync f answers c1 i
       end
   end.
+
+(* ... and the whole synchronous request, with the early return of the batch macros for an empty key list *)
+Definition request_sync_step (fuel : nat) (no_keys : bool) (answers : A -> bool) (c : cache) (i : nat)
+  : outcome (cache * option A) :=
+  if no_keys then Done (c, None)
+  else request_sync fuel answers c i.
 
 End Cache.
 
@@ -396,3 +407,4 @@ Arguments variant {A}.
 Arguments request_poll {A}.
 Arguments request_step {A}.
 Arguments request_sync {A}.
+Arguments request_sync_step {A}.
